@@ -375,6 +375,17 @@ pub fn check_edits(old_text: &str, class: &str, from_module: Option<&str>, edits
   out
 }
 
+/// Does `provider_text` declare a toplevel **class** of that name? The property speaks about "an
+/// unresolved class that some other module exports"; when the exporter declares an *interface* of
+/// that name, importing it cannot resolve a use that needs a class, and clause (iv) does not apply.
+pub fn declares_class(provider_text: &str, class: &str) -> bool {
+  let mut heap = Heap::new();
+  let mut errors = samlang_errors::ErrorSet::new();
+  let mr = heap.alloc_module_reference_from_string_vec(vec!["Scratch".to_string()]);
+  let module = samlang_parser::parse_source_module_from_text(provider_text, mr, &mut heap, &mut errors);
+  module.toplevels.iter().any(|t| t.is_class() && t.name().name.as_str(&heap) == class)
+}
+
 pub fn signature_tag(old_text: &str, class: &str) -> String {
   cause_tag(old_text, class)
 }
@@ -494,7 +505,7 @@ fn note_layout(acc: &mut C16Access, old_text: &str) {
   }
 }
 
-fn commit(acc: &mut C16Access, i: usize, source: &str, module: &ModName, old_text: &str, class: &str, new_text: String, n_edits: usize) {
+fn commit(acc: &mut C16Access, i: usize, source: &str, module: &ModName, old_text: &str, class: &str, new_text: String, n_edits: usize, provider_is_class: bool) {
   let layout = layout_class(old_text);
   let tag = cause_tag(old_text, class);
   let old_had_syntax_errors = parse(old_text, None).syntax_errors > 0;
@@ -533,6 +544,10 @@ fn commit(acc: &mut C16Access, i: usize, source: &str, module: &ModName, old_tex
       }
     }
   }
+  if !provider_is_class {
+    acc.probe("clause_iv_skipped_exporter_declares_an_interface");
+    return;
+  }
   if let Some(mr) = acc.resolve(module) {
     if unresolved(acc, &mr).iter().any(|(_, n)| n == class) {
       acc.violation(
@@ -551,7 +566,7 @@ pub fn apply_actions(acc: &mut C16Access, i: usize, module: &ModName, pick: usiz
     return;
   }
   let targets = unresolved(acc, &mr);
-  let mut candidates: Vec<(String, String, usize)> = Vec::new(); // (class, new text, n edits)
+  let mut candidates: Vec<(String, String, usize, bool)> = Vec::new(); // (class, new text, n edits, exporter declares a class)
   for (loc, class) in targets.into_iter().take(3) {
     let actions = match panics::catch(|| rewrite::code_actions(acc.state(), loc)) {
       Ok(a) => a,
@@ -577,13 +592,14 @@ pub fn apply_actions(acc: &mut C16Access, i: usize, module: &ModName, pick: usiz
         // only commit actions whose import target still exists in the world; importing from a
         // module that is gone cannot resolve the class, and whether such an action should be
         // offered at all is clause (iv)'s question, asked when it is the one committed
-        candidates.push((class.clone(), t, edits.len()));
+        let provider_is_class = acc.world().iter().find(|(m, _)| mod_display(m) == tmodule).map(|(_, t)| declares_class(t, &tclass)).unwrap_or(false);
+        candidates.push((class.clone(), t, edits.len(), provider_is_class));
       }
     }
   }
   if !candidates.is_empty() {
-    let (class, text, n) = candidates[pick % candidates.len()].clone();
-    commit(acc, i, "code_action", module, &old_text, &class, text, n);
+    let (class, text, n, provider_is_class) = candidates[pick % candidates.len()].clone();
+    commit(acc, i, "code_action", module, &old_text, &class, text, n, provider_is_class);
   }
 }
 
@@ -600,7 +616,7 @@ pub fn apply_completion(acc: &mut C16Access, i: usize, module: &ModName, line: u
       return;
     }
   };
-  let mut candidates: Vec<(String, String, usize)> = Vec::new();
+  let mut candidates: Vec<(String, String, usize, bool)> = Vec::new();
   for item in items.into_iter().filter(|x| !x.additional_edits.is_empty()).take(6) {
     acc.probe("completion_items_with_edits");
     note_layout(acc, &old_text);
@@ -612,12 +628,16 @@ pub fn apply_completion(acc: &mut C16Access, i: usize, module: &ModName, line: u
       Some(rest.chars().take_while(|c| c.is_ascii_alphanumeric() || *c == '.' || *c == '_' || *c == '-').collect::<String>())
     });
     if let Some(t) = check_action(acc, i, "completion", module, &old_text, &item.label, from.as_deref(), &item.additional_edits) {
-      candidates.push((item.label.clone(), t, item.additional_edits.len()));
+      let provider_is_class = from
+        .as_deref()
+        .and_then(|f| acc.world().iter().find(|(m, _)| mod_display(m) == f).map(|(_, t)| declares_class(t, &item.label)))
+        .unwrap_or(false);
+      candidates.push((item.label.clone(), t, item.additional_edits.len(), provider_is_class));
     }
   }
   if !candidates.is_empty() {
-    let (class, text, n) = candidates[pick % candidates.len()].clone();
+    let (class, text, n, provider_is_class) = candidates[pick % candidates.len()].clone();
     // (iv) is only meaningful when the class was in use; after the import it must not be unresolved
-    commit(acc, i, "completion", module, &old_text, &class, text, n);
+    commit(acc, i, "completion", module, &old_text, &class, text, n, provider_is_class);
   }
 }
